@@ -17,8 +17,10 @@ PROP = 'C10'
 OPS = {'S': 'expand_subcircuits', 'L': 'fill_in_let', 'M': 'fill_in_map', 'A': 'expand_macros'}
 CONFIGS = {
     # (name, AstEnum constants, program budget, longest history, number of override dictionaries)
-    'quick': ([('mixed', ('H_X', 'M_X', 'T_X', 'O_X', 2, 3), 60, 3, 4), ('par-calls', ('H_X', 'M_XP', 'T_XP', 'O_XP', 2, 3), 700, 2, 1)], 3),
-    'thorough': ([('mixed', ('H_X', 'M_X', 'T_X', 'O_X', 3, 3), 900, 4, 4), ('par-calls', ('H_X', 'M_XP', 'T_XP', 'O_XP', 3, 3), 20000, 2, 1)], 4),
+    'quick': ([('mixed', ('H_X', 'M_X', 'T_X', 'O_X', 2, 3), 60, 3, 4), ('par-calls', ('H_X', 'M_XP', 'T_XP', 'O_XP', 2, 3), 700, 2, 1),
+               ('legal', ('H_X', 'M_X', 'T_X', 'O_X', 2, 3), 1500, 1, 1)], 3),
+    'thorough': ([('mixed', ('H_X', 'M_X', 'T_X', 'O_X', 3, 3), 900, 4, 4), ('par-calls', ('H_X', 'M_XP', 'T_XP', 'O_XP', 3, 3), 20000, 2, 1),
+                  ('legal', ('H_X', 'M_X', 'T_X', 'O_X', 3, 3), 40000, 1, 1)], 4),
 }
 OVRS = [[], [('a', 2)], [('n', 1)], [('a', 0), ('n', 3)]]
 
@@ -121,8 +123,8 @@ def main(tier):
     hists = histories(rep, wd, maxlen)
     jobs = []
     for name, consts, budget, hlen, novr in cfgs:
-        progs = passes.enumerate_programs(rep, name, passes.ast_cfg(*consts), wd)
-        rep.cov.setdefault('enumerated_programs', {})[name] = len(progs)
+        progs = passes.enumerate_programs(rep, name, passes.ast_cfg(*consts), wd, budget=budget)
+        rep.cov.setdefault('enumerated_programs', {})[name] = progs.total
         if len(progs) > budget:
             progs = rng.sample(progs, budget)
             rep.cov['exhaustive'] = False
